@@ -60,7 +60,16 @@ class Family:
             gb = lsl.GraphBuilder()
             gb.add(a, b)
             model = gb.build_model()
-            self.iface = gs.LieselInterface(model)
+            if name.endswith("_noauto"):
+                # the documented switch for setting several values at once, flipped by the user before the interface is made
+                model.auto_update = False
+            if name.startswith("goose"):
+                import warnings
+                with warnings.catch_warnings():
+                    warnings.simplefilter("ignore")
+                    self.iface = lsl.GooseModel(model)      # deprecated twin with its own copy of the code
+            else:
+                self.iface = gs.LieselInterface(model)
             self.state = model.state
 
     def read(self, st):
@@ -71,13 +80,14 @@ class Family:
         return {k: fstr(np.asarray(st[f"{k}_value"].value)) for k in F}
 
 
+FAMILIES = ("dict", "dataclass", "liesel", "liesel_noauto", "goose", "goose_noauto")
 BLOCKS = [("a",), ("b",), ("t",), ("a", "b"), ("b", "t"), ("a", "b", "t")]
 
 
 def trace(seed, family, nsteps=14):
     """Deterministic in (seed, family): the seed is the PRNG key of every step and seeds the choice of blocks."""
     import random
-    rng = random.Random(seed * 3 + ("dict", "dataclass", "liesel").index(family))
+    rng = random.Random(seed * 3 + FAMILIES.index(family))
     key = jax.random.PRNGKey(seed)
     start = {"a": rng.choice([0.3, 1.7, -0.4]), "b": rng.choice([-0.2, 0.6]), "t": rng.choice([4.0, 0.8, 2.5])}
     fam = Family(family, start)
@@ -113,5 +123,6 @@ def trace(seed, family, nsteps=14):
     return {"hdr": {"seed": int(seed), "family": family}, "ev": ev}
 
 
-def traces(seeds, families=("dict", "dataclass", "liesel")):
+def traces(seeds, families=None):
+    families = families or FAMILIES
     return [trace(s, f) for s in seeds for f in families]
